@@ -142,11 +142,16 @@ def run_case(case, hooks=None):
     FileBuilder = fb.FileBuilder
     root = tempfile.mkdtemp(prefix='fbh_sb_', dir=SANDBOX_BASE)
     root = os.path.realpath(root)
+    # a private temp dir: FileBackups' mkdtemp lands here, so leftovers can be attributed
+    priv = tempfile.mkdtemp(prefix='fbh_tmp_', dir=SANDBOX_BASE)
+    old_tempdir = tempfile.tempdir
+    tempfile.tempdir = priv
     cache_abs = os.path.join(root, case['cache'])
     clock = [1000000]
     outs = []
     try:
         apply_tree(root, case['tree'])
+        init = snapshot(root, cache_abs)
         for st in case['steps']:
             k = st[0]
             if k == 'mut':
@@ -159,7 +164,7 @@ def run_case(case, hooks=None):
                 before_tmp = tmp_leftovers()
 
                 def rootf(b, a):
-                    return dsl.run_func(ctx, root_idx, b, None, a, {})
+                    return dsl.run_func(ctx, root_idx, b, None, a, {}, is_root=True)
                 if hooks and 'pre_build' in hooks:
                     hooks['pre_build'](ctx, root, cache_abs)
                 try:
@@ -182,6 +187,8 @@ def run_case(case, hooks=None):
                 outs.append({'res': res, 'tree': snapshot(root, cache_abs)})
             else:
                 raise ValueError(k)
-        return {'steps': outs}
+        return {'steps': outs, 'init': init}
     finally:
+        tempfile.tempdir = old_tempdir
         shutil.rmtree(root, ignore_errors=True)
+        shutil.rmtree(priv, ignore_errors=True)
